@@ -88,6 +88,9 @@ type fault struct {
 	// EntryRange: entry at the bounds of the integer element type
 	Val      string `json:"val"`
 	Notation string `json:"notation"`
+	// CellIndex: which coordinate of a sparse matrix entry leaves the matrix, and where the other one is
+	Out   string `json:"out"`
+	Other string `json:"other"`
 }
 
 // rcvSpec: pre-state of the object the document is read into (Serialization!Rcv)
@@ -341,10 +344,15 @@ func usedReceiver(et *etype, o *absObj, rc *rcvSpec, src interface{}) (ptr inter
 				s = NullReal64()
 			}
 			setVal(et, s, other)
-			s.Alloc(3, 2)
-			for i := 0; i < 3; i++ {
+			// Order and N of the used receiver come from the case (rows = Order, cols = N)
+			order, n := rc.Rows, rc.Cols
+			if order < 1 {
+				order, n = 2, 3
+			}
+			s.Alloc(n, order)
+			for i := 0; i < n; i++ {
 				s.SetDerivative(i, 1.5+float64(i))
-				for j := 0; j < 3; j++ {
+				for j := 0; j < n && order >= 2; j++ {
 					s.SetHessian(i, j, 0.5+float64(i+2*j))
 				}
 			}
@@ -629,6 +637,16 @@ func compare(et *etype, e *absExp, o *observation, withDeriv bool) (string, stri
 		}
 		if o.N != e.N {
 			return "derivative", fmt.Sprintf("N=%d, expected %d", o.N, e.N)
+		}
+		if e.Order < 2 {
+			// the document carries a gradient but no Hessian: the receiver must not show one
+			for i := range o.Hess {
+				for j, h := range o.Hess[i] {
+					if math.Float64frombits(h) != 0 {
+						return "stale_derivative", fmt.Sprintf("hessian[%d][%d] is %v although the document carries no Hessian", i, j, math.Float64frombits(h))
+					}
+				}
+			}
 		}
 		if o.Order < e.Order {
 			return "derivative", fmt.Sprintf("order=%d, expected %d", o.Order, e.Order)
